@@ -103,11 +103,16 @@ struct dyn {
   static constexpr bool sends_done = true;
   struct op { std::unique_ptr<op_base> o; void start() noexcept { o->start(); } };
   // adapts whatever receiver a real adaptor gives us back to rcv_base, reading the queries it answers
-  template <class R>
+  template <class R, bool HasValue = true>
   struct holder final : rcv_base, op_base {
     R rcv; std::unique_ptr<op_base> inner;
     explicit holder(R&& r) : rcv((R&&)r) {}
-    void value(int v) noexcept override { unifex::set_value(std::move(rcv), int(v)); }
+    void value(int v) noexcept override {
+      if constexpr (!HasValue) { (void)v; vmcrt::fail("!", "harness", "a value was sent through a done-only sender"); }
+      else if constexpr (std::is_invocable_v<unifex::tag_t<unifex::set_value>, R, int>) unifex::set_value(std::move(rcv), int(v));
+      else if constexpr (std::is_invocable_v<unifex::tag_t<unifex::set_value>, R>) { (void)v; unifex::set_value(std::move(rcv)); }
+      else { (void)v; vmcrt::fail("!", "harness", "a value was sent to a receiver that accepts none"); }
+    }
     void error(std::exception_ptr e) noexcept override { unifex::set_error(std::move(rcv), std::move(e)); }
     void done() noexcept override { unifex::set_done(std::move(rcv)); }
     inplace_stop_token stok() const noexcept override {
@@ -136,6 +141,17 @@ struct dyn {
     auto h = std::make_unique<holder<std::decay_t<R>>>((R&&)r);
     h->inner = d.n->connect(*h);
     return op{std::move(h)};
+  }
+};
+
+// a sender that never completes with a value (stream cleanup())
+struct ddone : dyn {
+  template <template <class...> class V, template <class...> class T> using value_types = V<>;
+  template <class R>
+  friend dyn::op tag_invoke(unifex::tag_t<unifex::connect>, const ddone& d, R&& r) {
+    auto h = std::make_unique<dyn::holder<std::decay_t<R>, false>>((R&&)r);
+    h->inner = d.n->connect(*h);
+    return dyn::op{std::move(h)};
   }
 };
 
